@@ -139,3 +139,25 @@ def scale_leg(ctx, rng, d, modes=False, every=41, g=0):
             core_queries(c, u[:-1], modes=False)
     core_queries(c, "nope" + d + "1", modes=modes)
     probe.note_key(f"at-scale:n{n}", True)
+
+
+def change_delimiter_mid_life(c, strings, rng, ask):
+    """A converter that has already answered questions gets another delimiter (`converter.delimiter = ...`, a public
+    attribute) and is asked the same strings again, then gets its old delimiter back and is asked once more: every
+    answer follows the attribute (the always-on monitors read it at call time)."""
+    old = c.delimiter
+    prefixes = [p for r in spec.snapshot(c) for p in spec.all_p(r)]
+    others = [x for x in gen.DELIMS if x != old and not any(x in p for p in prefixes)]
+    if not others:
+        return
+    new = rng.choice(others)
+    for s_ in strings:
+        ask(c, s_)
+    c.delimiter = new
+    for s_ in strings:
+        ask(c, s_)
+        ask(c, s_.replace(old, new))
+    c.delimiter = old
+    for s_ in strings:
+        ask(c, s_)
+    probe.S.counters["wl:delimiter-changed-mid-life"] += 1
